@@ -87,6 +87,28 @@ def exercise(schema):
             pass
 
 
+class _Alarm(BaseException):
+    pass
+
+
+def timed(fn, on_timeout, seconds=3.0):
+    """fn() under a wall-clock alarm: a regular expression of the universe may make re.search (which
+    the library's validator uses) backtrack for minutes; that is no observation about d42"""
+    import signal
+
+    def handler(signum, frame):
+        raise _Alarm()
+    old = signal.signal(signal.SIGALRM, handler)
+    signal.setitimer(signal.ITIMER_REAL, seconds)
+    try:
+        return fn()
+    except _Alarm:
+        return on_timeout
+    finally:
+        signal.setitimer(signal.ITIMER_REAL, 0)
+        signal.signal(signal.SIGALRM, old)
+
+
 def try_abs(fn, x):
     """(rep, [abstract]) -- rep False when x is outside the abstract domain"""
     try:
